@@ -21,7 +21,9 @@ type defaultVarMocker struct {
 	targetValue reflect.Value
 	mockValue   interface{}
 	originValue interface{}
-	canceled    bool // canceled 是否被取消
+	// origin 首次 mock 之前的变量值备份(reflect.Value 形式可以保留 nil interface), 未 mock 过时为零值
+	origin   reflect.Value
+	canceled bool // canceled 是否被取消
 }
 
 // String mock 的名称或描述, 方便调试和问题排查
@@ -63,7 +65,10 @@ func (m *defaultVarMocker) Apply(callback interface{}) {
 
 // Cancel 取消 mock
 func (m *defaultVarMocker) Cancel() {
-	m.targetValue.Elem().Set(reflect.ValueOf(m.originValue))
+	// 从未 Set/Apply 过则变量保持不变
+	if m.origin.IsValid() {
+		m.targetValue.Elem().Set(m.origin)
+	}
 	m.canceled = true
 }
 
@@ -80,7 +85,13 @@ func (m *defaultVarMocker) Set(value interface{}) {
 }
 
 func (m *defaultVarMocker) doSet(value interface{}) {
-	m.originValue = m.targetValue.Elem().Interface()
+	if !m.origin.IsValid() {
+		// 只在首次 mock 时备份原值, 之后的 Set/Apply 不能覆盖这份备份
+		origin := reflect.New(m.targetValue.Elem().Type()).Elem()
+		origin.Set(m.targetValue.Elem())
+		m.origin = origin
+		m.originValue = m.targetValue.Elem().Interface()
+	}
 	d := reflect.ValueOf(value)
 	m.targetValue.Elem().Set(d)
 	m.mockValue = value
